@@ -179,6 +179,10 @@ func (c *CachedCheckResolver) ResolveCheck(
 	}
 
 	// not in cache, or consistency options experimental flag is set, and consistency param set to HIGHER_CONSISTENCY
+	// The entry is stamped with the time at which the evaluation STARTED: a write (and the invalidation
+	// that reports it) may land while the evaluation is running on the older data.
+	resolveStart := time.Now()
+
 	resp, err := c.delegate.ResolveCheck(ctx, req)
 	if err != nil {
 		telemetry.TraceError(span, err)
@@ -199,6 +203,6 @@ func (c *CachedCheckResolver) ResolveCheck(
 
 	clonedResp := resp.clone()
 
-	c.cache.Set(cacheKey, &CheckResponseCacheEntry{LastModified: time.Now(), CheckResponse: clonedResp}, storage.JitteredTTL(c.cacheTTL, c.jitterPercentage))
+	c.cache.Set(cacheKey, &CheckResponseCacheEntry{LastModified: resolveStart, CheckResponse: clonedResp}, storage.JitteredTTL(c.cacheTTL, c.jitterPercentage))
 	return resp, nil
 }
